@@ -60,6 +60,13 @@ def handle : List String → Option String
     let showC (c : List Bytes) : String :=
       "[" ++ ",".intercalate ((c.mergeSort bytesLe).map Bytes.toHex) ++ "]"
     some ("ok" ++ String.join (classes.map (fun c => " " ++ showC c)))
+  | ["pcanon", h] => do
+    -- pypi.CanonVersion: the canonical form if the string parses as PEP 440, else the string itself
+    let b ← Bytes.ofHex h
+    match parse .pypi b with
+    | .ok v => some ("ok " ++ Bytes.toHex (canon v true))
+    | .err => some ("ok " ++ Bytes.toHex b)
+    | .panic => some "panic"
   | ["diff", sys, ha, hb] => do
     let s ← System.ofWire sys
     let a ← Bytes.ofHex ha
@@ -101,7 +108,8 @@ def handle : List String → Option String
     let ab ← Bytes.ofHex ha
     let bb ← Bytes.ofHex hb
     let ps ← probes.mapM Bytes.ofHex
-    match parseConstraint s ab, parseConstraint s bb with
+    let pc (t : Bytes) := if t.head? == some 123 then parseSetConstraint s t else parseConstraint s t
+    match pc ab, pc bb with
     | .panic, _ => some "panic"
     | _, .panic => some "panic"
     | .ok ca, .ok cb =>
